@@ -1,5 +1,6 @@
 /- Line-protocol verbs for C20. -/
 import FwdVerif.Model.C20
+import FwdVerif.Model.C20Stack
 
 namespace FwdVerif
 namespace C20
@@ -49,6 +50,22 @@ def evOf (s : String) : Option HEv :=
     | some [t, c, n] => some (.call { t := t, c := c, n := n })
     | _ => none
 
+def encLayer : C08.Layer → String
+  | .proxyproto => "proxyproto"
+  | .ratelimit => "ratelimit"
+  | .track => "track"
+  | .tls => "tls"
+
+def encLayers (s : List C08.Layer) : String :=
+  if s.isEmpty then "-" else ",".intercalate (s.map encLayer)
+
+/-- the listener value `Listen` stores, by variant: `product` = the code; `limiter-first`, `sibling-proxy` = NOT the code -/
+def listenVariant (v : String) (c : C08.StackCfg) : Option LExpr :=
+  if v = "product" then some (listenExpr c)
+  else if v = "limiter-first" then some (limiterFirstListenExpr c)
+  else if v = "sibling-proxy" then some (siblingListenExpr c)
+  else none
+
 def handle : List String → String
   | ["burst", bw] =>
     match natOf bw with
@@ -61,6 +78,20 @@ def handle : List String → String
       let N := newListener r w
       s!"{ofBool (listenWiring r w).isSome} {encLim L.rxLimiter} {encLim L.txLimiter} {encLim N.rxLimiter} {encLim N.txLimiter}"
     | _, _ => "bad-op"
+  /- stackwiring <product|limiter-first|sibling-proxy> <proxy> <readLimit> <writeLimit> <track> <tls>: the stack of a
+     connection accepted from `forwarder.Listener` in that configuration (socket upwards) and the limiters on its
+     byte path (rx = the one its reads wait in, tx = its writes) -/
+  | ["stackwiring", variant, px, rl, wl, tr, tl] =>
+    match boolOf px, natOf rl, natOf wl, boolOf tr, boolOf tl with
+    | some px, some rl, some wl, some tr, some tl =>
+      let c : C08.StackCfg := { proxy := px, readLimit := rl, writeLimit := wl, trackTraffic := tr, tls := tl }
+      match listenVariant variant c with
+      | none => "bad-op"
+      | some e =>
+        let s := acceptLayers e c
+        let L := limitersIn s c
+        s!"layers={encLayers s} rx={encLim L.rxLimiter} tx={encLim L.txLimiter}"
+    | _, _, _, _, _ => "bad-op"
   | ["reserve", rate, burst, ops] =>
     match natOf rate, natOf burst, (splitList2 ops).mapM natTuple with
     | some r, some b, some tuples =>
